@@ -33,6 +33,21 @@ SPEC = PropertySpec(
 UNIONS = ("left_set.update(right_set)", "right_set.update(left_set)", "left_set.update(flow_connections.get(right_key, OrderedDict()))")
 
 
+def _flow_table_generator(st, node):
+    """the generator of `X = OrderedDict((s.name, s) for s in <node>.symbols.values() if 'flow' in s.prefixes)` / the dict comprehension of the same, else None"""
+    if not (isinstance(st, ast.Assign) and len(st.targets) == 1 and isinstance(st.targets[0], ast.Name)):
+        return None
+    v = st.value
+    comp = None
+    if isinstance(v, ast.Call) and (call_name(v) or "").split(".")[-1] in ("OrderedDict", "dict") and len(v.args) == 1 and isinstance(v.args[0], (ast.GeneratorExp, ast.ListComp)):
+        comp = v.args[0]
+    elif isinstance(v, ast.DictComp):
+        comp = v
+    if comp is None or len(comp.generators) != 1 or norm(comp.generators[0].iter) != "%s.symbols.values()" % node:
+        return None
+    return comp
+
+
 def _fn(ctx, R):
     """expand_connectors with role-named locals: flow_connections (key -> its set), disconnected (name -> Symbol),
     connected (the merged set of the clause being processed), left_key/right_key, equation (loop variable)"""
@@ -48,6 +63,10 @@ def _fn(ctx, R):
                 if isinstance(a, ast.Assign) and isinstance(a.targets[0], ast.Subscript) and isinstance(a.targets[0].value, ast.Name) \
                         and any(isinstance(t, ast.Compare) and "flow" in norm(t) for t in ast.walk(st)):
                     roles[a.targets[0].value.id] = "disconnected"
+        # the same table built in one expression (the engine's normal form of the loop above): X = OrderedDict((s.name, s) for s in node.symbols.values() if 'flow' in s.prefixes)
+        g = _flow_table_generator(st, node)
+        if g is not None:
+            roles[st.targets[0].id] = "disconnected"
     for lp in ast.walk(fn):
         if isinstance(lp, ast.For) and isinstance(lp.target, ast.Name) and any(isinstance(t, ast.Call) and is_name(t.func, "isinstance") and "ConnectClause" in norm(t) for t in ast.walk(lp)):
             roles.setdefault(lp.target.id, "equation")
@@ -177,12 +196,28 @@ def r09_2(ctx, rep):
     specs = [s.targets[0].id for s in ast.walk(loop) if isinstance(s, ast.Assign) and isinstance(s.targets[0], ast.Name) and norm(s.value) == "list(%s.values())" % sv]
     neg_ok = False
     for e in ast.walk(loop):
-        if isinstance(e, ast.IfExp) and isinstance(e.test, ast.Subscript) and literal(e.test.slice) == 1:
+        if not isinstance(e, ast.IfExp):
+            continue
+        # the member's (reference, inside flag) pair: `m[0]` / `m[1]` of the loop variable, or the two names it is unpacked into
+        ref = flag = None
+        if isinstance(e.test, ast.Subscript) and literal(e.test.slice) == 1:
             m = norm(e.test.value)
-            plain = norm(e.body) == "%s[0]" % m
-            negd = isinstance(e.orelse, ast.Call) and (call_name(e.orelse) or "").endswith("Expression") and any(
-                k.arg == "operator" and literal(k.value) == "-" for k in e.orelse.keywords) and ("[%s[0]]" % m) in norm(e.orelse)
-            neg_ok = plain and negd
+            ref, flag = "%s[0]" % m, "%s[1]" % m
+        elif isinstance(e.test, ast.Name):
+            comp = getattr(e, "_parent", None)
+            while comp is not None and not isinstance(comp, (ast.ListComp, ast.GeneratorExp, ast.For)):
+                comp = getattr(comp, "_parent", None)
+            tg = comp.generators[0].target if isinstance(comp, (ast.ListComp, ast.GeneratorExp)) else (comp.target if comp is not None else None)
+            src = comp.generators[0].iter if isinstance(comp, (ast.ListComp, ast.GeneratorExp)) else (comp.iter if comp is not None else None)
+            if isinstance(tg, ast.Tuple) and len(tg.elts) == 2 and all(isinstance(x, ast.Name) for x in tg.elts) and tg.elts[1].id == e.test.id \
+                    and isinstance(src, ast.Name) and src.id in specs:
+                ref, flag = tg.elts[0].id, tg.elts[1].id
+        if ref is None:
+            continue
+        plain = norm(e.body) == ref and norm(e.test) == flag
+        negd = isinstance(e.orelse, ast.Call) and (call_name(e.orelse) or "").endswith("Expression") and any(
+            k.arg == "operator" and literal(k.value) == "-" for k in e.orelse.keywords) and ("[%s]" % ref) in norm(e.orelse)
+        neg_ok = neg_ok or (plain and negd)
     rep.ob(R, SITE, "outside members negated, inside members not", neg_ok,
            "an operand must be the member's reference when its inside flag (element 1 of the stored pair) is true and Expression('-', [ref]) "
            "otherwise: flows into inside connectors count positive, flows into outside connectors negative")
@@ -215,6 +250,12 @@ def r09_3(ctx, rep):
             for i in ast.walk(lp):
                 if isinstance(i, ast.If) and norm(i.test) in ("'flow' in %s.prefixes" % s,) and any(norm(x) == "disconnected[%s.name] = %s" % (s, s) for x in i.body):
                     init = True
+    for st in fn.body:
+        comp = _flow_table_generator(st, node)
+        if comp is not None and is_name(st.targets[0], "disconnected") and isinstance(comp.generators[0].target, ast.Name):
+            s = comp.generators[0].target.id
+            key, val = (comp.key, comp.value) if isinstance(comp, ast.DictComp) else (comp.elt.elts if isinstance(comp.elt, ast.Tuple) and len(comp.elt.elts) == 2 else (None, None))
+            init = init or (key is not None and norm(key) == "%s.name" % s and norm(val) == s and [norm(c) for c in comp.generators[0].ifs] == ["'flow' in %s.prefixes" % s])
     rep.ob(R, SITE, "every flow symbol starts as unconnected", init, "`if 'flow' in sym.prefixes: disconnected[sym.name] = sym` for every symbol of the class")
     cfg = CFG(fn, R)
     unions = [x for x in cfg.stmts() if norm(x.ast) in UNIONS]
